@@ -12,6 +12,9 @@ func TestVerifReplay(t *testing.T) {
 		"VerifC07DigestV3":      VerifC07DigestV3,
 		"VerifC07ScalarsV3":     VerifC07ScalarsV3,
 		"VerifC07ScalarsSignV3": VerifC07ScalarsSignV3,
-		"VerifC07DigestV1":      VerifC07DigestV1,
+		"VerifC07DigestV2":      VerifC07DigestV2,
+		"VerifC07ScalarsV2":     VerifC07ScalarsV2,
+		"VerifC07ScalarsSignV2": VerifC07ScalarsSignV2,
+		"VerifC07IdV2":          VerifC07IdV2,
 	})
 }
